@@ -19,11 +19,12 @@ pub fn check() -> Check {
         id: "C08",
         run_shard,
         replay,
+        prepare: Some(prepare),
         floor_quick: 20_000,
         floor_thorough: 1_000_000,
         rule: "G1: every token list of length <= 3 over all tokens of <= 3 symbols, of length <= 2 over all tokens of <= 4 symbols (thorough: <= 5 symbols) and of length <= 4 over all tokens of <= 2 symbols \
                from {dash, a, e-acute, bitcoin sign, G-clef, space} plus the empty token, classified by ArgList (built from the NUL-joined raw form, independent of the tokenizer) and compared with a reference classifier; \
-               the same over the length-boundary characters U+07FF, U+0800, U+FFFF, U+10000, U+10FFFD; every scalar value U+0001..U+10FFFF alone, leading, after one and two dashes and inside a cluster; lists of 254..513 (thorough: also 65534..65537) tokens and clusters of that many options; for every enumerated and random list the iterator driven through skip / nth / fold / count / last after k plain next() calls agrees with the plain loop; G2: random lists of up to 12 tokens, both through ArgList and typed (quoted) through a whole Cli to the handler. The iterator must also be fused. \
+               the same over the length-boundary characters U+07FF, U+0800, U+FFFF, U+10000, U+10FFFD; every scalar value U+0001..U+10FFFF alone, leading, after one and two dashes and inside a cluster; lists of 254..513 (thorough: also 65534..65537) tokens and clusters of that many options; for every enumerated and random list the iterator driven through skip / nth / fold / count / last after k plain next() calls agrees with the plain loop; a coverage-guided campaign (libFuzzer + ASan, same dictionary as C07) with the reference classifier inside the target; G2: random lists of up to 12 tokens, both through ArgList and typed (quoted) through a whole Cli to the handler. The iterator must also be fused. \
                Non-trivial = the list contains `--`, a cluster with a multi-byte character, `-` alone, an empty token or a token starting with three dashes; distinct by list content.",
         assumptions: &[
             "tokens contain no NUL (NUL is the internal separator and cannot be typed)",
@@ -266,7 +267,21 @@ fn token_strategy(typeable: bool) -> impl Strategy<Value = String> {
     ]
 }
 
+fn fuzz_case(d: &[u8]) -> Value {
+    json!({"tokens": String::from_utf8_lossy(d).split('\u{1e}').map(|s| s.to_string()).collect::<Vec<_>>()})
+}
+
+/// Coverage-guided search with the reference classifier inside the target (tokens separated by U+001E in the input)
+fn prepare(tier: vmodel::engine::Tier, seed: u64, _dir: &std::path::Path) -> Result<Value, super::PrepError> {
+    let mut seeds: Vec<Vec<u8>> = Vec::new();
+    for l in ["a\u{1e}-b\u{1e}--c", "--\u{1e}-x\u{1e}--", "-abc\u{1e}\u{1e}-", "-é₿\u{1e}val\u{1e}---x", "-5\u{1e}-1e3\u{1e}--no-color"] {
+        seeds.push(l.as_bytes().to_vec());
+    }
+    super::fuzzdrv::prepare_fdiff("C08", "args", "classify-random", "text.dict", tier, seed, seeds, fuzz_case)
+}
+
 fn run_shard(ctx: &ShardCtx) {
+    super::fuzzdrv::replay_fdiff_corpus(ctx, "C08", "args", "classify-random", fuzz_case);
     let mut idx = 0u64;
     let b = ctx.tier.pick(4u32, 5u32);
     enumerate(ctx, &all_tokens(3), 3, &mut idx);
